@@ -24,6 +24,13 @@ Definition lookup_ty (T : string) : option anyty :=
                                                 | w :: r => if String.eqb w "1" then Some (true, r)
                                                             else if String.eqb w "0" then Some (false, r) else None
                                                 | [] => None end) (fun _ => 1))
+  else if is "string" then Some (AnyTy (fun _ => dec_string) enc_string sh_b p_b rl_bytes_vec)
+  else if is "klrki" then Some (AnyTy (fun _ => dec_klrki) enc_klrki
+                                       (fun m => sh_b (mk_K m) ++ sh_b (mk_L m) ++ sh_b (mk_R m) ++ sh_b (mk_ki m))%list
+                                       (a <~ p_b ;; b <~ p_b ;; c <~ p_b ;; d <~ p_b ;; pret (mk_klrki a b c d))
+                                       (fun m => rl_arr (mk_K m) + rl_arr (mk_L m) + rl_arr (mk_R m) + rl_arr (mk_ki m))%N)
+  else if is "multisigout" then Some (AnyTy (fun _ => dec_multisig_out) enc_multisig_out (sh_list sh_b) (p_list p_b)
+                                             (rl_vec rl_arr))
   else if is "hash" then Some (AnyTy (fun _ => dec_hash) enc_arr sh_b p_b rl_arr)
   else if is "hash8" then Some (AnyTy (fun _ => dec_hash8) enc_arr sh_b p_b rl_arr)
   else if is "key64" then Some (AnyTy (fun _ => dec_key64) enc_arr sh_b p_b rl_arr)
